@@ -403,3 +403,23 @@ def handler_reraises(h, exc_names=None):
             if nm not in exc_names:
                 ok = False
     return ok
+
+
+# ---------------------------------------------------------------------------
+# order-type enumeration: a test that only *compares* a few quantities is
+# decided by evaluating it on every weak ordering of those quantities
+# ---------------------------------------------------------------------------
+import itertools as _it
+
+
+def weak_orderings(names):
+    """All weak orderings of `names` as dicts name -> rank (0-based)."""
+    n = len(names)
+    seen = set()
+    for vals in _it.product(range(n), repeat=n):
+        ranks = sorted(set(vals))
+        canon = tuple(ranks.index(v) for v in vals)
+        if canon in seen:
+            continue
+        seen.add(canon)
+        yield dict(zip(names, canon))
